@@ -937,3 +937,89 @@ mod tests {
   }
 }
 
+
+// Verification hook (no behaviour change): a public scripted-driver interface onto the
+// private per-device loop and the private device filters.
+// Compiled only with --cfg ellbur_totalmapper_verif.
+#[cfg(ellbur_totalmapper_verif)]
+pub mod verif {
+  use super::*;
+  
+  #[derive(Debug, Clone, Copy, PartialEq, Eq)]
+  pub enum VDevice { Keyboard, Tablet }
+  
+  #[derive(Debug, Clone, PartialEq, Eq)]
+  pub enum VPoll { DeviceEvent(Vec<VDevice>), TimedOut, Interrupted }
+  
+  #[derive(Debug, Clone, PartialEq, Eq)]
+  pub enum VNext<T> { End, Busy, One(T) }
+  
+  #[derive(Debug, Clone, Copy, PartialEq, Eq)]
+  pub enum VTablet { On, Off }
+  
+  pub trait ScriptedDriver {
+    fn register_poll(&mut self) -> Result<(), String>;
+    fn poll(&mut self, timeout: Option<Duration>) -> Result<VPoll, String>;
+    fn next_keyboard(&mut self) -> Result<VNext<Event>, String>;
+    fn next_tablet(&mut self) -> Result<VNext<VTablet>, String>;
+    fn send(&mut self, evs: &Vec<Event>) -> Result<(), String>;
+  }
+  
+  struct Adapter<'a, D: ScriptedDriver>(&'a mut D);
+  
+  impl<'a, D: ScriptedDriver> Driver for Adapter<'a, D> {
+    type PollRegistry = ();
+    
+    fn register_poll(&mut self) -> Result<(), String> {
+      self.0.register_poll()
+    }
+    
+    fn poll(&mut self, _registry: &mut (), timeout: Option<Duration>) -> Result<PollResult, String> {
+      Ok(match self.0.poll(timeout)? {
+        VPoll::DeviceEvent(devs) => PollResult::DeviceEvent(devs.into_iter().map(|d| match d {
+          VDevice::Keyboard => Device::Keyboard,
+          VDevice::Tablet => Device::Tablet
+        }).collect()),
+        VPoll::TimedOut => PollResult::TimedOut,
+        VPoll::Interrupted => PollResult::Interrupted
+      })
+    }
+    
+    fn next_keyboard(&mut self) -> Result<Next<Event>, String> {
+      Ok(match self.0.next_keyboard()? {
+        VNext::End => Next::End,
+        VNext::Busy => Next::Busy,
+        VNext::One(ev) => Next::One(ev)
+      })
+    }
+    
+    fn next_tablet(&mut self) -> Result<Next<TableModeEvent>, String> {
+      Ok(match self.0.next_tablet()? {
+        VNext::End => Next::End,
+        VNext::Busy => Next::Busy,
+        VNext::One(VTablet::On) => Next::One(TableModeEvent::On),
+        VNext::One(VTablet::Off) => Next::One(TableModeEvent::Off)
+      })
+    }
+    
+    fn send(&mut self, evs: &Vec<Event>) -> Result<(), String> {
+      self.0.send(evs)
+    }
+  }
+  
+  pub fn run_one_device<D: ScriptedDriver>(driver: &mut D, layout: Layout, verbose: bool) -> Result<(), String> {
+    do_remapping_loop_one_device(&mut Adapter(driver), layout, verbose)
+  }
+  
+  pub fn flag_excluded_keyboards(devices: Vec<ExtractedKeyboard>, excludes: &[&str]) -> Vec<(ExtractedKeyboard, bool)> {
+    flag_excluded(devices, excludes).into_iter().map(|d| (d.extracted_keyboard, d.excluded)).collect()
+  }
+  
+  pub fn flag_excluded_devices(devices: Vec<ExtractedInputDevice>, excludes: &[&str]) -> Vec<(ExtractedInputDevice, bool)> {
+    flag_excluded_input_devices(devices, excludes).into_iter().map(|d| (d.extracted_keyboard, d.excluded)).collect()
+  }
+  
+  pub fn filter_devices<'s>(devices: &Vec<&'s str>, skip_non_keyboard: bool, excludes: &[&str], verbose: bool) -> Result<Vec<&'s str>, String> {
+    filter_devices_verbose(devices, skip_non_keyboard, excludes, verbose)
+  }
+}
